@@ -47,6 +47,15 @@ def object_kinds():
         ks.append(("Cast:" + tn, lambda ty=ty: P.Query.from_(T_("t")).select(fn.Cast(T_("t").a, ty)).where(fn.Cast(T_("t").b, ty) == "x")))
         if callable(ty):
             ks.append(("Cast:%s(n)" % tn, lambda ty=ty: fn.Cast(T_("t").a, ty(20))))
+    # temporal tables (FOR <criterion> / FOR PORTION OF <criterion> are attributes set after construction) and statements over them
+    tmp = lambda: T_("t").for_(P.SYSTEM_TIME.as_of("2020-01-01"))  # noqa
+    prt = lambda: T_("t").for_portion(P.SYSTEM_TIME.from_to("2020-01-01", "2020-02-01"))  # noqa
+    ks += [("Table.for_", tmp), ("Table.for_portion", prt),
+           ("select over temporal", lambda: P.Query.from_(tmp()).select("a").where(B.T.Field("b") == 1)),
+           ("join temporal", lambda: P.Query.from_(T_("u")).join(tmp()).on(T_("u").a == tmp().a).select("*")),
+           ("update portion", lambda: P.Query.update(prt()).set("foo", "bar").where(B.T.Field("id") == 1)),
+           ("setop over temporal", lambda: P.Query.from_(tmp()).select("a").union(P.Query.from_(T_("v")).select("a"))),
+           ("create as select temporal", lambda: P.Query.create_table("x").as_select(P.Query.from_(tmp()).select("a")))]
     for qc in B.QUERY_CLASSES:
         n = qc.__name__
         ks += [(n + ".select", lambda qc=qc: B.sel(qc)), (n + ".insert", lambda qc=qc: B.ins(qc, qc is not B.MSSQLQuery)),
